@@ -283,6 +283,18 @@ impl RouterHandler {
                                 .remove_router_metrics(&router_id);
                             break;
                         }
+
+                        // RFC 7854 section 4.5: a Termination message ends
+                        // the session. Stop reading so that the withdrawals
+                        // and the end-of-stream notice below are sent now
+                        // and the router leaves the router list, rather than
+                        // whenever the router closes the connection.
+                        if matches!(
+                            self.state_machine.lock().await.as_ref(),
+                            Some(BmpState::Terminated(_))
+                        ) {
+                            break;
+                        }
                     }
                 }
             }
